@@ -165,10 +165,11 @@ func (d *duplexHTTPCall) Read(data []byte) (int, error) {
 		return 0, fmt.Errorf("nil response from %v", d.request.URL)
 	}
 	n, err := d.response.Body.Read(data)
-	if err != nil && (!errors.Is(err, io.EOF) || (err != io.EOF && d.ctx.Err() != nil)) { //nolint:errorlint
-		// Not the end of the body - or something that merely wraps io.EOF while
-		// the context is done: for a context canceled with a cause, net/http
-		// fails reads with the cause, whatever that wraps.
+	if err != nil && (!errors.Is(err, io.EOF) || d.ctx.Err() != nil) {
+		// Not the end of the body - or an io.EOF while the context is done: for a
+		// context canceled with a cause, net/http fails reads with the cause,
+		// whatever that is or wraps. (The next Read would report the context's
+		// end anyway.)
 		err = wrapIfRSTError(wrapIfContextDone(d.ctx, err))
 	}
 	return n, err
